@@ -32,10 +32,9 @@ def monitor(run):
     resolved = set()
     for (i, mev, outs, before, after) in PC.steps(run):
         op = mev[0]
-        ev = run.pyevents[i]
         honest = run.dishonest_at is None or i < run.dishonest_at
         if op in (10, 12) and run.applied[i]:
-            v = ev[1]
+            v = PC.value_of_mev(mev)
             acked, failed = set(), None
             if v[0] == "resp":
                 acked = {(t, p) for (t, p, e, _o) in v[1] if e == 0}
@@ -167,6 +166,15 @@ def cfg_c09(rnd):
         cfg["b"] = rnd.choice([0, 0, 100])
         cfg["t"] = rnd.choice([None, 5])
     cfg["partitioner"] = rnd.choice(["rr", "hashed", "scripted", "scripted"])
+    return cfg
+
+
+def cfg_c09_sync(rnd):
+    """as cfg_c09, and the scripted client answers some produce requests - first attempts and retries - with an
+    ALREADY-FIRED Deferred (success, Kafka failure, failed payloads, error codes): cfg["sync"] = generator weight"""
+    cfg = cfg_c09(rnd)
+    cfg["sync"] = rnd.choice([6, 12, 25])
+    cfg["max"] = rnd.choice([1, 2, 3, 3, 4])
     return cfg
 
 
@@ -400,6 +408,10 @@ def run(ck):
     check_runs(ck, runs, "Producer vs Model.Producer.run_case (general generator)")
     runs = PC.gen_runs(rnd, 1000 * scale, hist=ck.hist, cfg_fn=cfg_c09)
     check_runs(ck, runs, "Producer vs Model.Producer.run_case (retry generator: metadata ready, mixed per-partition outcomes)")
+    runs = PC.gen_runs(rnd, 500 * scale, hist=ck.hist, cfg_fn=cfg_c09_sync)
+    for r in runs:
+        ck.hist("sync_results_(already-fired_Deferred_from_send_produce_request)", sum(1 for e in r.pyevents if e[0] == "syncnext"))
+    check_runs(ck, runs, "Producer vs Model.Producer.run_case (retry generator with synchronous client results: already-fired Deferreds)")
     depth = 4 if ck.tier == "quick" else 6
     chunk, total = [], 0
     label = "Producer vs Model.Producer.run_case (all sequences up to depth %d over an 8-letter retry alphabet)" % depth
